@@ -1,1 +1,150 @@
 //! Wrappers around the crate-private onion failure-packet helpers of `ln::onion_utils`.
+//!
+//! Add-only: every function here merely forwards to the existing crate-private function named in
+//! its documentation and converts the result into plain public data. The file is compiled as
+//! `crate::ln::verif_onion` (the helpers are `pub(in crate::ln)`) and re-exported as
+//! `crate::verif::onion`.
+
+use crate::ln::channelmanager::{HTLCSource, PaymentId};
+use crate::ln::msgs;
+use crate::ln::onion_utils::{self, AttributionData, HTLCFailReason, LocalHTLCFailureReason};
+use crate::ln::types::ChannelId;
+use crate::routing::gossip::NetworkUpdate;
+use crate::routing::router::Path;
+use crate::util::logger::Logger;
+
+use bitcoin::secp256k1::{self, PublicKey, Secp256k1, SecretKey};
+
+#[allow(unused_imports)]
+use crate::prelude::*;
+
+/// An encrypted failure packet as it travels backwards in `update_fail_htlc`
+/// (`reason` + optional attribution data).
+#[derive(Clone, Debug, PartialEq, Eq)]
+pub struct FailurePacket {
+	/// `update_fail_htlc.reason`
+	pub data: Vec<u8>,
+	/// `update_fail_htlc.attribution_data`
+	pub attribution_data: Option<AttributionData>,
+}
+
+impl FailurePacket {
+	fn from_inner(p: msgs::OnionErrorPacket) -> Self {
+		FailurePacket { data: p.data, attribution_data: p.attribution_data }
+	}
+	fn to_msg(&self) -> msgs::UpdateFailHTLC {
+		msgs::UpdateFailHTLC {
+			channel_id: ChannelId::from_bytes([0; 32]),
+			htlc_id: 0,
+			reason: self.data.clone(),
+			attribution_data: self.attribution_data.clone(),
+		}
+	}
+}
+
+/// What the sender learns from a failure packet (the fields of the crate-private
+/// `DecodedOnionFailure`).
+#[derive(Clone, Debug)]
+pub struct DecodedFailure {
+	/// `DecodedOnionFailure::network_update`
+	pub network_update: Option<NetworkUpdate>,
+	/// `DecodedOnionFailure::short_channel_id`
+	pub short_channel_id: Option<u64>,
+	/// `DecodedOnionFailure::payment_failed_permanently`
+	pub payment_failed_permanently: bool,
+	/// `DecodedOnionFailure::failed_within_blinded_path`
+	pub failed_within_blinded_path: bool,
+	/// `DecodedOnionFailure::hold_times`
+	pub hold_times: Vec<u32>,
+	/// `onion_error_code` (only recorded by the library under `_test_utils`).
+	pub failure_code: Option<u16>,
+	/// `onion_error_data` (only recorded by the library under `_test_utils`).
+	pub failure_data: Option<Vec<u8>>,
+}
+
+/// `onion_utils::build_failure_packet`: the failure packet the erring hop (which shares
+/// `shared_secret` with the sender) originates.
+pub fn build_failure_packet(
+	shared_secret: &[u8; 32], failure_code: u16, failure_data: &[u8], hold_time: u32,
+) -> FailurePacket {
+	FailurePacket::from_inner(onion_utils::build_failure_packet(
+		&shared_secret[..],
+		LocalHTLCFailureReason::from(failure_code),
+		failure_data,
+		hold_time,
+	))
+}
+
+/// What a forwarding hop does with a failure received from downstream:
+/// `HTLCFailReason::from_msg` + `set_hold_time` + `get_encrypted_failure_packet`
+/// (i.e. `process_failure_packet` followed by `crypt_failure_packet`).
+pub fn wrap_failure_packet(
+	shared_secret: &[u8; 32], packet: &FailurePacket, hold_time: u32,
+) -> FailurePacket {
+	let mut reason = HTLCFailReason::from_msg(&packet.to_msg());
+	reason.set_hold_time(hold_time);
+	FailurePacket::from_inner(reason.get_encrypted_failure_packet(shared_secret, &None))
+}
+
+/// What the sender does with a failure received from its first hop:
+/// `HTLCFailReason::from_msg` + `decode_onion_failure` (-> `process_onion_failure`) with an
+/// `HTLCSource::OutboundRoute` made of `path` and `session_priv`.
+pub fn decode_failure<T: secp256k1::Signing, L: Logger>(
+	secp_ctx: &Secp256k1<T>, logger: &L, path: &Path, session_priv: &SecretKey,
+	packet: &FailurePacket,
+) -> DecodedFailure {
+	let source = HTLCSource::OutboundRoute {
+		path: path.clone(),
+		session_priv: *session_priv,
+		first_hop_htlc_msat: 0,
+		payment_id: PaymentId([0; 32]),
+		bolt12_invoice: None,
+	};
+	let reason = HTLCFailReason::from_msg(&packet.to_msg());
+	let d = reason.decode_onion_failure(secp_ctx, logger, &source);
+	#[cfg(feature = "_test_utils")]
+	let (failure_code, failure_data) =
+		(d.onion_error_code.map(|c| c.failure_code()), d.onion_error_data.clone());
+	#[cfg(not(feature = "_test_utils"))]
+	let (failure_code, failure_data) = (None, None);
+	DecodedFailure {
+		network_update: d.network_update,
+		short_channel_id: d.short_channel_id,
+		payment_failed_permanently: d.payment_failed_permanently,
+		failed_within_blinded_path: d.failed_within_blinded_path,
+		hold_times: d.hold_times,
+		failure_code,
+		failure_data,
+	}
+}
+
+/// `onion_utils::process_fulfill_attribution_data`: what a hop (the final one with `None`) does to
+/// the attribution data of an `update_fulfill_htlc`.
+pub fn fulfill_attribution_data(
+	downstream: Option<AttributionData>, shared_secret: &[u8; 32], hold_time: u32,
+) -> AttributionData {
+	onion_utils::process_fulfill_attribution_data(downstream, &shared_secret[..], hold_time)
+}
+
+/// `onion_utils::decode_fulfill_attribution_data`: the hold times the sender reads from the
+/// attribution data of an `update_fulfill_htlc`.
+pub fn decode_fulfill_hold_times<T: secp256k1::Signing, L: Logger>(
+	secp_ctx: &Secp256k1<T>, logger: &L, path: &Path, session_priv: &SecretKey,
+	attribution_data: AttributionData,
+) -> Vec<u32> {
+	onion_utils::decode_fulfill_attribution_data(
+		secp_ctx,
+		logger,
+		path,
+		session_priv,
+		attribution_data,
+	)
+}
+
+/// `onion_utils::next_hop_pubkey`: the blinding point a blinded forwarding hop hands to its
+/// successor in `update_add_htlc`.
+pub fn next_hop_pubkey<T: secp256k1::Verification>(
+	secp_ctx: &Secp256k1<T>, curr_pubkey: PublicKey, shared_secret: &[u8],
+) -> Result<PublicKey, secp256k1::Error> {
+	onion_utils::next_hop_pubkey(secp_ctx, curr_pubkey, shared_secret)
+}
